@@ -481,6 +481,69 @@ def run(ctx: Ctx):
             rule_h(ctx, env)
     rule_e(ctx)
     ffsp_wait_column(ctx)
+    rows_decided_per_instance(ctx)
+    finished_selection_keeps_an_action(ctx)
+    fjsp_file_operations_keep_their_machines(ctx)
+
+
+def fjsp_file_operations_keep_their_machines(ctx: Ctx):
+    """C02.l FJSP instances read from FJSPLIB files: every operation keeps ALL its (machine, duration) alternatives (reader half
+    of C19.c).  An operation whose only eligible machine is dropped by the reader can never be scheduled: its job blocks, the
+    instance ends in an all-masked row and the wait transition finds no machine that will ever become free."""
+    from .C19 import fjsp_reader_layout, FP
+    pj = ctx.repo.get_function(FP, "parse_job_line")
+    ctx.fn(pj)
+    order_r, adv, nops_ok, why_r = fjsp_reader_layout(ctx, pj)
+    ok = bool(order_r and adv and nops_ok)
+    ctx.ob("C02.l", "fjsp.parser.parse_job_line:all-alternatives-read", ok, pj.loc, f"{why_r}; one iteration per operation: {nops_ok}",
+           construct="fjsp.parser:token-order")
+
+
+def finished_selection_keeps_an_action(ctx: Ctx):
+    """C02.k selection environments (FLP, MCP, DPP, MDPP): an instance that reached its quota keeps being stepped while its
+    batch-mates select on, so its mask row must stay open somewhere.  Kleene evaluation of the mask written by `_step` under
+    the assumption "this instance is done" (both the incoming flag and the one computed in this step): a mask that evaluates
+    to all-False has been conjoined with the negated done flag -- the finished row is all-masked and the decoder's softmax
+    sees a row of -inf."""
+    for cname in ("FLPEnv", "MCPEnv", "DPPEnv", "MDPPEnv"):
+        env = EnvA(ctx.repo, T.ALL_ENVS[cname], cname)
+        sl = env.slot("_step")
+        ctx.fn(sl.fi)
+        am = sl.cell("action_mask")
+        nd = sl.cell("done")
+        if am is None or nd is None:
+            raise AnalysisError(f"{cname}._step: action_mask / done not written")
+        nd_id = nf.strip(nd, True).id
+
+        def a_(n_):
+            x_ = nf.strip(n_, True)
+            if x_.id == nd_id:
+                return True
+            while x_.op == "sub" or (x_.op == "meth" and x_.args[1] in ("reshape", "view", "squeeze", "unsqueeze", "clone", "flatten", "expand_as", "bool")):
+                x_ = nf.strip(x_.args[0], True)
+                if x_.id == nd_id:
+                    return True
+            if x_.op == "cell0" and x_.args[1] == "done":
+                return True
+            return None
+        v = nf.kleene(am, a_)
+        ok = v is not False
+        ctx.ob("C02.k", f"{cname}._step:finished-row-keeps-an-action", ok, sl.where,
+               f"action_mask' under done = True evaluates to {'unknown (depends on the selection, not on done)' if v is None else v}" +
+               ("" if ok else ": every action of a finished instance is closed while its batch-mates are still selecting"),
+               construct=f"{sl.fi.qualname}:mask:closed-when-done")
+
+
+def rows_decided_per_instance(ctx: Ctx):
+    """C02.j the mask and the done flag of one instance are computed from that instance's own row.  Every other C02 rule reads
+    the step function row by row (truth tables with one row per instance, per-row counters); this rule discharges that premise
+    with the batch-axis engine of C04, restricted to the sinks C02 is about: the `action_mask` and `done` cells written by
+    `_step` and the value returned by `get_action_mask`.  A fleet size read once for the whole batch (`batch_to_scalar`), a
+    reduction over the batch axis or a [batch] x [batch, 1] broadcast in those values lets an instance be offered the depot after
+    its last vehicle left, or closes its last action because a batch-mate is finished."""
+    from .C04 import batch_rows
+    batch_rows(ctx, "C02.j", meths=("_step", "get_action_mask"),
+               sink_ok=lambda cname, meth, sink: sink == "return" or sink in ("cell:action_mask", "cell:done"))
 
 
 def ffsp_wait_column(ctx: Ctx):
